@@ -785,9 +785,18 @@ fn identity_part(ctx: &Ctx, res: &mut PartResult, depth: usize) {
     fn mk(v: u64) -> Span {
         tracing::info_span!("iter", a = v, b = Empty)
     }
+    // a wide pair of spans (20 + 20 distinct fields: the child's label map holds 40 entries), created under the current
+    // span, entered, checked and closed again: label maps come from a process-wide pool, and whatever such a map held
+    // must be gone when a later span gets it
+    fn wide_parent() -> Span {
+        tracing::info_span!("wide", f00 = 0, f01 = 1, f02 = 2, f03 = 3, f04 = 4, f05 = 5, f06 = 6, f07 = 7, f08 = 8, f09 = 9, f10 = 10, f11 = 11, f12 = 12, f13 = 13, f14 = 14, f15 = 15, f16 = 16, f17 = 17, f18 = 18, f19 = 19)
+    }
+    fn wide_child() -> Span {
+        tracing::info_span!("wide2", g00 = 0, g01 = 1, g02 = 2, g03 = 3, g04 = 4, g05 = 5, g06 = 6, g07 = 7, g08 = 8, g09 = 9, g10 = 10, g11 = 11, g12 = 12, g13 = 13, g14 = 14, g15 = 15, g16 = 16, g17 = 17, g18 = 18, g19 = 19)
+    }
     const POOL: usize = 3;
-    // ops: 0,1 = create with a=1 / a=2; 2..5 enter(i); 5 exit; 6..9 record(i); 9..12 drop(i)
-    let n_ops = 12;
+    // ops: 0,1 = create with a=1 / a=2; 2..5 enter(i); 5 exit; 6..9 record(i); 9..12 drop(i); 12 = the wide pair
+    let n_ops = 13;
     let mut total_checks = 0u64;
     for filter in [Filter::All, Filter::Allow(vec!["a", "b"])] {
         let log: Log = Default::default();
@@ -807,6 +816,7 @@ fn identity_part(ctx: &Ctx, res: &mut PartResult, depth: usize) {
                         2..=4 => pool[op - 2].is_some() && !stack.iter().any(|e| e.0 == op - 2),
                         5 => !stack.is_empty(),
                         6..=8 => pool[op - 6].is_some(),
+                        12 => true,
                         _ => pool[op - 9].is_some() && !stack.iter().any(|e| e.0 == op - 9),
                     };
                     if !applicable {
@@ -838,6 +848,35 @@ fn identity_part(ctx: &Ctx, res: &mut PartResult, depth: usize) {
                             sp.record("b", val.as_str());
                             labels.insert("b".into(), val);
                         }
+                        12 => {
+                            let mut want: BTreeMap<String, String> = stack.last().map(|e| pool[e.0].as_ref().unwrap().1.clone()).unwrap_or_default();
+                            for i in 0..20 {
+                                want.insert(format!("f{:02}", i), i.to_string());
+                            }
+                            let p = wide_parent();
+                            let pg = p.enter();
+                            for i in 0..20 {
+                                want.insert(format!("g{:02}", i), i.to_string());
+                            }
+                            let c = wide_child();
+                            let cg = c.enter();
+                            let mut fails: Vec<(String, String)> = Vec::new();
+                            {
+                                let mut env = Env { rec: rec.as_ref(), log: &log, filter: &Filter::All, fails: &mut fails, checks: &mut total_checks, states: &mut states, tree: &dummy };
+                                if matches!(filter, Filter::All) {
+                                    emit_and_check(&mut env, Some(&want), &format!("inside the wide pair of spans at step {} of {:?}", step, &seq[..=step]));
+                                }
+                            }
+                            drop(cg);
+                            drop(c);
+                            drop(pg);
+                            drop(p);
+                            if let Some((sig, msg)) = fails.into_iter().next() {
+                                all_fails.push((sig, msg, seq[..=step].to_vec()));
+                                cut = Some(step);
+                                break;
+                            }
+                        }
                         _ => {
                             pool[op - 9] = None;
                         }
@@ -846,7 +885,7 @@ fn identity_part(ctx: &Ctx, res: &mut PartResult, depth: usize) {
                     let mut fails: Vec<(String, String)> = Vec::new();
                     {
                         let mut env = Env { rec: rec.as_ref(), log: &log, filter: &filter, fails: &mut fails, checks: &mut total_checks, states: &mut states, tree: &dummy };
-                        emit_and_check(&mut env, visible.as_ref(), &format!("after step {} of the one-callsite program {:?} (0,1 = create a=1/2 under the current span; 2-4 enter; 5 exit; 6-8 record b; 9-11 drop handle)", step, &seq[..=step]));
+                        emit_and_check(&mut env, visible.as_ref(), &format!("after step {} of the one-callsite program {:?} (0,1 = create a=1/2 under the current span; 2-4 enter; 5 exit; 6-8 record b; 9-11 drop handle; 12 = a wide pair of spans with 40 labels created, checked and closed)", step, &seq[..=step]));
                     }
                     if let Some((sig, msg)) = fails.into_iter().next() {
                         all_fails.push((sig, msg, seq[..=step].to_vec()));
@@ -895,7 +934,7 @@ fn filters(all: bool) -> Vec<Filter> {
 
 fn parts(ctx: &Ctx) -> Vec<PartSpec> {
     let b = if ctx.quick() { 150.0 } else { 2400.0 };
-    let mut v = vec![PartSpec::new("value-types", json!({"p": "values"})), PartSpec::new("explicit-parents", json!({"p": "explicit"})), PartSpec::new("record-window", json!({"p": "window"})), PartSpec::new(&format!("one-callsite-identity-d{}", if ctx.quick() { 7 } else { 9 }), json!({"p": "identity", "depth": if ctx.quick() { 7 } else { 9 }})).budget(b)];
+    let mut v = vec![PartSpec::new("value-types", json!({"p": "values"})), PartSpec::new("explicit-parents", json!({"p": "explicit"})), PartSpec::new("record-window", json!({"p": "window"})), PartSpec::new(&format!("one-callsite-identity-d{}", if ctx.quick() { 6 } else { 8 }), json!({"p": "identity", "depth": if ctx.quick() { 6 } else { 8 }})).budget(b)];
     let fl = filters(true);
     let depth = if ctx.quick() { 3 } else { 5 };
     for fi in 0..fl.len() {
@@ -927,7 +966,7 @@ fn main() {
     driver::main(CheckDef {
         prop: "C17",
         level: "model_checking",
-        rule: "all span trees (chains of nested spans) up to the stated depth where every level independently takes one of 20 variants (fields a,b given at creation or left Empty; a later record() of a or b, either right after creation or after the child span was created), x filters {IncludeAll, custom per-metric closure, Allowlists over {a,b,c}} x metric own-label sets ⊆ {a,c} x 2 metric names x 3 kinds, emitted inside every level, after every subtree, after leaving every level and outside any span, on the real MetricsLayer + TracingContextLayer over a real tracing-subscriber registry, optionally with a second thread holding a conflicting span on the same subscriber; the key reaching the inner recorder is compared with a reference precedence map (metric > inner span > outer span-at-child-creation, record() replaces); plus, at the value-formatting callback inside Span::record (the one point where other code can run during a record), every action of {emit in the span, create a child and emit in it} x {same thread, another thread} and a concurrent record of the other field: the emission sees the labels from before or after the record, never a torn set; plus field value types (str, bool, i64/u64 extremes, Debug, Display, f64, u128, Empty); distinct = distinct resulting label sets; span identity: every sequence of 7 (thorough 9) operations over a pool of 3 spans from ONE callsite with different field values (create under the current span, enter/exit, record, drop the handle — so that the registry hands span ids out again), an emission after every step",
+        rule: "all span trees (chains of nested spans) up to the stated depth where every level independently takes one of 20 variants (fields a,b given at creation or left Empty; a later record() of a or b, either right after creation or after the child span was created), x filters {IncludeAll, custom per-metric closure, Allowlists over {a,b,c}} x metric own-label sets ⊆ {a,c} x 2 metric names x 3 kinds, emitted inside every level, after every subtree, after leaving every level and outside any span, on the real MetricsLayer + TracingContextLayer over a real tracing-subscriber registry, optionally with a second thread holding a conflicting span on the same subscriber; the key reaching the inner recorder is compared with a reference precedence map (metric > inner span > outer span-at-child-creation, record() replaces); plus, at the value-formatting callback inside Span::record (the one point where other code can run during a record), every action of {emit in the span, create a child and emit in it} x {same thread, another thread} and a concurrent record of the other field: the emission sees the labels from before or after the record, never a torn set; plus field value types (str, bool, i64/u64 extremes, Debug, Display, f64, u128, Empty); distinct = distinct resulting label sets; span identity: every sequence of 6 (thorough 8) operations over a pool of 3 spans from ONE callsite with different field values (create under the current span, enter/exit, record, drop the handle, and a wide pair of spans with 40 labels created, checked and closed — label maps are pooled — so that the registry hands span ids out again), an emission after every step",
         assumptions: &["span trees are chains (each span has at most one child): sibling spans are independent by construction of the per-span label map"],
         parts,
         run,
